@@ -133,6 +133,8 @@ def run_check(pid, tier, seed):
     ok = validate_evidence(path)
     log('%s %s: evaluations=%d nontrivial=%d outcomes=%d violations=%d known=%d wall=%.1fs' % (
         pid, tier, agg.evaluations, agg.nontrivial, len(agg.outcomes), agg.violation_total, sum(known_hits.values()), wall))
+    import shutil
+    shutil.rmtree('/var/tmp/vf-sbx-%d' % os.getpid(), ignore_errors=True)
     if not ok:
         return 2
     return 1 if agg.violation_total else 0
